@@ -232,6 +232,11 @@ func compareTags(a, b xmlgen.Token, rendered []map[string]string, set map[string
 			continue
 		}
 		nsSame = false
+		if _, ok := am[x.k]; ok && x.k != "xmlns" {
+			// declared by both, bound to different names: not a missing declaration
+			set["nsdecl-value"] = true
+			continue
+		}
 		switch {
 		case x.v == "" && x.k == "xmlns":
 			set["nsdecl-missing:empty-default-undeclaration"] = true
